@@ -125,12 +125,20 @@ def build():
         return VBool(z3.And(*[inst(I, s, d) for s, d in h.ref.pairs]))
     C.helpers["handle_installed"] = handle_installed
 
+    FLIPPER_KINDS = ("pulse_on_hit_and_release", "pulse_on_hit_and_enable_and_release",
+                     "pulse_on_hit_and_release_and_disable", "pulse_on_hit_and_enable_and_release_and_disable")
+
     def setter(kind, n_sw):
         def m(I, env, a, k):
             names = ["enable_switch", "eos_switch"][:n_sw]
             d = drv_of(I, env["driver"])
             if d is None:
                 I.raise_("AttributeError", "'NoneType' object has no attribute 'get_and_verify_pulse_ms'")
+            if kind in FLIPPER_KINDS and "self" in I.frames[0].env and I.frames[0].env["self"].ref.cls == "Flipper" \
+                    and I.ctx.fork(2) == 1:
+                # the platform (or the driver's limit check) refuses the rule: nothing is installed
+                emit(I, "rule.fault", kind=kind)
+                I.raise_("AssertionError", "platform fault while writing the rule")
             sws = [sw_of(I, env[nm]) for nm in names]
             for s in sws:
                 set_inst(I, s, d, True)
@@ -258,8 +266,9 @@ def build():
         this = I.frames[0].env["self"].ref
         if not I.ctx.branch(I.truth(I.read_field(this, "_enabled"))):
             return I.new_list([], name)
-        hs = [new_handle(I, pairs, kind, "%s[%d]" % (name, i)) for i, (kind, pairs) in
-              enumerate(expected_groups(I, this))]
+        exp = expected_groups(I, this)
+        k = I.ctx.fork(len(exp) + 1)            # 0..len rules: a fault may have interrupted enable()
+        hs = [new_handle(I, pairs, kind, "%s[%d]" % (name, i)) for i, (kind, pairs) in enumerate(exp[:len(exp) - k])]
         return I.new_list(hs, name)
 
     def flipper_inv(I):
@@ -267,11 +276,12 @@ def build():
         en = I.truth(I.read_field(this, "_enabled"))
         lst = I.container(I.force(I.read_field(this, "_active_rules")).ref).items
         exp = expected_groups(I, this)
-        shape_ok = len(lst) == len(exp) and all(
+        # the held rules are a prefix of the wiring table (all of it after a complete enable)
+        shape_ok = len(lst) <= len(exp) and all(
             I.force(h).tag == "obj" and getattr(I.force(h).ref, "pairs", None) == tuple(p) and
             I.force(h).ref.rule_kind == kind for h, (kind, p) in zip(lst, exp))
         own = all_own_pairs(I, this)
-        exp_pairs = [p for _, ps in exp for p in ps]
+        exp_pairs = [p for _, ps in exp[:len(lst)] for p in ps]
         enabled_case = z3.And(z3.BoolVal(shape_ok), *[inst(I, s, d) if (s, d) in exp_pairs else z3.Not(inst(I, s, d))
                                                       for s, d in own])
         disabled_case = z3.And(z3.BoolVal(len(lst) == 0), *[z3.Not(inst(I, s, d)) for s, d in own])
@@ -284,6 +294,10 @@ def build():
         return VBool(z3.Or(*[inst(I, s, d) for s, d in all_own_pairs(I, this)] + [z3.BoolVal(False)]))
     C.helpers["any_own_rule_installed"] = own_installed
     C.helpers["n_expected_rules"] = lambda I: VInt(len(expected_groups(I, I.frames[0].env["self"].ref)))
+    C.helpers["n_held_rules"] = lambda I: VInt(len(I.container(I.force(I.read_field(
+        I.frames[0].env["self"].ref, "_active_rules")).ref).items))
+    C.helpers["n_faults"] = lambda I: VInt(len(events_named(I, "rule.fault")))
+    C.trace_helpers |= {"n_faults"}
 
     def expected_kinds(I):
         this = I.frames[0].env["self"].ref
@@ -294,8 +308,9 @@ def build():
     C.cls("Flipper", file=FL, bases=["SystemWideDevice"], fields=dict(
         machine=MACHINE, config=Init(flipper_config), _enabled=Bool, _sw_flipped=Bool,
         _active_rules=Init(flipper_rules), name=Str),
-        invariants=[("R: enabled <=> exactly the rules of the wiring table are installed and held; disabled => none of "
-                     "the flipper's pairs is installed; software flip only while enabled", "flipper_inv()")])
+        invariants=[("R: every installed rule of the flipper is held in _active_rules (so disable() removes it) and is a "
+                     "rule of the wiring table, in order; a disabled flipper holds and has none; software flip only "
+                     "while enabled", "flipper_inv()")])
     for g in ("_get_pulse_ms", "_get_hold_pulse_ms", "_get_pulse_power", "_get_hold_pulse_power", "_get_hold_power"):
         C.ext("Flipper." + g, model=lambda I, env, a, k: I.fresh(Opt(Real), I.fresh_name("setting")),
               trusted_reason="rule parameter lookup (pulse/hold settings; their limits are C08)")
@@ -307,14 +322,20 @@ def build():
     C.fn("Flipper.enable",
          ensures=[("enabled afterwards", "self._enabled"),
                   ("F1: an already enabled flipper installs nothing; otherwise exactly the rules of the wiring table, "
-                   "each once", "n_rule_sets() == 0 if old(self._enabled) else installed_rules_are_the_wiring_table()"),
+                   "each once, and all of them are held",
+                   "n_rule_sets() == 0 if old(self._enabled) else (installed_rules_are_the_wiring_table() and "
+                   "n_held_rules() == n_expected_rules())"),
                   ("nothing is cleared and no coil is driven", "n_rule_clears() == 0 and n_coil_cmds() == 0")],
-         modifies=FM, raises={}, inline_calls=True)
+         raises={"AssertionError": True},
+         ensures_exc=[("F1x: when the platform refuses a rule half way, every rule already installed is still held "
+                       "and the flipper counts as enabled, so that disable() removes them", "flipper_inv()"),
+                      ("only a platform fault makes enable fail", "n_faults() == 1")],
+         modifies=FM, inline_calls=True)
     C.fn("Flipper.disable",
          loops={0: LoopSpec(invariant=[], unroll=True)},
          ensures=[("disabled afterwards, not software-flipped", "not self._enabled and not self._sw_flipped"),
                   ("F2: every rule the flipper held is cleared, each once, and none is installed",
-                   "n_rule_clears() == (n_expected_rules() if old(self._enabled) else 0) and n_rule_sets() == 0 and "
+                   "n_rule_clears() == (old(n_held_rules()) if old(self._enabled) else 0) and n_rule_sets() == 0 and "
                    "not any_own_rule_installed()"),
                   ("F3: a software-flipped flipper is released: no flipper coil is left energised",
                    "implies(old(self._sw_flipped), last_coil_cmd(" + MAIN + ") == 'disable' and "
@@ -343,7 +364,8 @@ def build():
                    "delay_added('flipper_') and n_rule_sets() == 0 and n_rule_clears() == 0 and "
                    "implies(not self._enabled, n_coil_cmds() == 0)")],
          modifies=["self._sw_flipped", "self.machine.delay.pending.**"], raises={})
-    C.fn("Flipper.event_enable", ensures=["self._enabled"], modifies=FM, raises={}, allow_decorators=["event_handler"])
+    C.fn("Flipper.event_enable", ensures=["self._enabled"], modifies=FM, raises={"AssertionError": True},
+         ensures_exc=["flipper_inv()"], allow_decorators=["event_handler"])
     C.fn("Flipper.event_disable", ensures=["not self._enabled and not any_own_rule_installed()"], modifies=FM,
          raises={}, allow_decorators=["event_handler"], loops={})
     C.fn("Flipper.event_sw_flip", ensures=["implies(not self._enabled, n_coil_cmds() == 0)"],
